@@ -153,8 +153,9 @@ def unit(job, variant, pi, seed, quick, plan_len):
                               "job": job, "conflicts": rec.conflicts[:3]})
     cuts = sorted({0, len(cmds) // 2, len(cmds)} | {rng.randint(0, len(cmds)) for _ in range(2)})
     for k in cuts:
-        ops = [{"exec": simlib.enc_command(c)} for c in cmds[:k] if not simlib.is_refused(c)] + [{"reload": True}] + \
-              [{"exec": simlib.enc_command(c)} for c in cmds[k:] if not simlib.is_refused(c)]
+        enc = lambda c: ({"refuse": "console" if isinstance(c, simlib.ConsoleText) else "op"}   # noqa: E731
+                         if simlib.is_refused(c) else {"exec": simlib.enc_command(c)})
+        ops = [enc(c) for c in cmds[:k]] + [{"reload": True}] + [enc(c) for c in cmds[k:]]
         out["reqs"].append({"fn": "engine", "tables": rec.tables(), "init": rec.ckpt_id(a[0].playlogs[0]), "ops": ops})
         out["expect"].append((job, variant, k, [rec.enc_log(l) for l in a],
                               simlib.hash_structure([l.previous_hash for l in a], [l.hash for l in a]),
